@@ -65,6 +65,16 @@ def analyse(pid, repo):
         mod.check(ctx)
     except AnalysisBroken as e:
         ctx.broken('rules', pid, str(e))
+    from .main import INSTANTIATIONS_QUICK
+    for numeric, engine in INSTANTIATIONS_QUICK:
+        try:
+            p2 = frontend.load(repo, numeric=numeric, engine=engine, use_cache=False)
+            ctx.prog = p2
+            ctx.inst_label = '%s/%s' % (numeric, engine)
+            mod.check(ctx)
+        except AnalysisBroken as e:
+            ctx.broken('instantiation', numeric, str(e))
+    ctx.prog = prog
     return ctx
 
 
